@@ -1193,6 +1193,12 @@ void Interpreter::assign_union_variable(const std::string &name,
     if (var->type != TYPE_UNION) {
         throw std::runtime_error("Variable is not a union type: " + name);
     }
+
+    // const な union 変数への再代入は不可（通常の変数代入と同じ）
+    if (var->is_const && var->is_assigned) {
+        error_msg(DebugMsgId::CONST_REASSIGN_ERROR, name.c_str());
+        throw std::runtime_error("Cannot reassign const variable: " + name);
+    }
     if (debug_mode) {
         {
             char dbg_buf[512];
